@@ -1259,6 +1259,136 @@ func (g *gen) precheck(name string, fd *ast.FuncDecl, tableMode bool) {
 		stack = append(stack, n)
 		return true
 	})
+	// (b) integers. Wide (64-bit) integers are natural numbers without wrap-around in the model; that is only sound while their
+	// values stay small. They can only come from constants, `len`, loop counters and converted uint8 fields (a float is converted
+	// to an integer only in the idiom `int(f) % c == 0`, which is sign-symmetric), so: no wide `<<`; `*` only by a constant < 256,
+	// at most twice per function and never in a loop; at most 16 additions of two run-time operands per function, none of them
+	// `x + x`, and inside loops only `x + constant`, `x++`, `x += len(…)`.
+	nWideMul, nWideAdd := 0, 0
+	inLoop := func(n ast.Node) bool {
+		for p := parent[n]; p != nil; p = parent[p] {
+			switch p.(type) {
+			case *ast.ForStmt, *ast.RangeStmt:
+				return true
+			}
+		}
+		return false
+	}
+	isWideExpr := func(e ast.Expr) bool {
+		t := g.info.TypeOf(e)
+		if t == nil {
+			return false
+		}
+		bt, ok := t.Underlying().(*types.Basic)
+		return ok && bt.Info()&types.IsInteger != 0 && bt.Kind() != types.Uint8 && wideInt(bt)
+	}
+	sameVar := func(a, b ast.Expr) bool {
+		ia, ok1 := stripParens(a).(*ast.Ident)
+		ib, ok2 := stripParens(b).(*ast.Ident)
+		return ok1 && ok2 && ia.Name == ib.Name
+	}
+	isLenCall := func(e ast.Expr) bool {
+		c, ok := stripParens(e).(*ast.CallExpr)
+		if !ok {
+			return false
+		}
+		id, ok := c.Fun.(*ast.Ident)
+		return ok && id.Name == "len"
+	}
+	checkWide := func(n ast.Node, op token.Token, xe, ye ast.Expr) {
+		cx, cy := g.constInt(xe), g.constInt(ye)
+		if cx != nil && cy != nil {
+			return
+		}
+		for _, e := range []ast.Expr{xe, ye} {
+			// a constant that does not fit a small non-negative int64 (e.g. 1<<64 - 1): certainly overflow-prone
+			if tv, ok := g.info.Types[stripParens(e)]; ok && tv.Value != nil {
+				if c := g.constInt(e); c == nil || *c >= 1<<31 {
+					g.die(n, "64-bit arithmetic with a constant >= 2^31 is not modelled (no wrap-around in the model)")
+				}
+			}
+		}
+		switch op {
+		case token.SHL:
+			g.die(n, "left shift of a 64-bit integer is not modelled (no wrap-around in the model)")
+		case token.MUL:
+			small := (cx != nil && *cx < 256) || (cy != nil && *cy < 256)
+			nWideMul++
+			if !small || nWideMul > 2 || inLoop(n) {
+				g.die(n, "64-bit multiplication other than by a constant < 256 (at most twice, outside loops) is not modelled")
+			}
+		case token.ADD:
+			if cx != nil || cy != nil {
+				if (cx != nil && *cx >= 1<<31) || (cy != nil && *cy >= 1<<31) {
+					g.die(n, "64-bit addition of a constant >= 2^31 is not modelled")
+				}
+				return
+			}
+			nWideAdd++
+			if sameVar(xe, ye) || nWideAdd > 16 {
+				g.die(n, "64-bit doubling / too many 64-bit additions in one function: not modelled (no wrap-around in the model)")
+			}
+			if inLoop(n) && !isLenCall(xe) && !isLenCall(ye) {
+				g.die(n, "64-bit addition of two run-time values inside a loop is not modelled")
+			}
+		}
+	}
+	// (c) local aliases of package-level tables: writing through them would write the table
+	tainted := map[types.Object]bool{}
+	mentionsPkgTable := func(e ast.Expr) bool {
+		found := false
+		ast.Inspect(e, func(m ast.Node) bool {
+			if id, ok := m.(*ast.Ident); ok {
+				if v, ok := g.info.Uses[id].(*types.Var); ok && !v.IsField() && v.Parent() == g.pkg.Scope() {
+					switch v.Type().Underlying().(type) {
+					case *types.Slice, *types.Map, *types.Pointer, *types.Array:
+						found = true
+					}
+				}
+			}
+			return true
+		})
+		return found
+	}
+	ast.Inspect(fd.Body, func(n ast.Node) bool {
+		if a, ok := n.(*ast.AssignStmt); ok && len(a.Lhs) == len(a.Rhs) {
+			for i, l := range a.Lhs {
+				id, ok := l.(*ast.Ident)
+				if !ok {
+					continue
+				}
+				o := g.info.Defs[id]
+				if o == nil {
+					o = g.info.Uses[id]
+				}
+				if o == nil {
+					continue
+				}
+				switch o.Type().Underlying().(type) {
+				case *types.Slice, *types.Map, *types.Pointer:
+					if mentionsPkgTable(a.Rhs[i]) {
+						tainted[o] = true
+					}
+				}
+			}
+		}
+		return true
+	})
+	isTainted := func(e ast.Expr) bool {
+		for {
+			switch x := stripParens(e).(type) {
+			case *ast.IndexExpr:
+				e = x.X
+				continue
+			case *ast.SliceExpr:
+				e = x.X
+				continue
+			case *ast.Ident:
+				return tainted[g.info.Uses[x]]
+			}
+			return false
+		}
+	}
 	nMake3, nMake3Top := 0, 0
 	for _, st := range fd.Body.List {
 		if as, ok := st.(*ast.AssignStmt); ok && len(as.Rhs) == 1 {
@@ -1283,8 +1413,12 @@ func (g *gen) precheck(name string, fd *ast.FuncDecl, tableMode bool) {
 		}
 		switch x := n.(type) {
 		case *ast.UnaryExpr:
-			if x.Op == token.AND && tableMode {
-				if _, isLit := stripParens(x.X).(*ast.CompositeLit); !isLit {
+			if x.Op == token.AND {
+				_, isLit := stripParens(x.X).(*ast.CompositeLit)
+				if _, isSel := stripParens(x.X).(*ast.SelectorExpr); isSel && !tableMode {
+					isLit = true // parser mode models `&kvm.field` (a field index); a pointer to a whole local is refused below
+				}
+				if !isLit {
 					p := parent[x]
 					for {
 						if pe, ok := p.(*ast.ParenExpr); ok {
@@ -1349,6 +1483,23 @@ func (g *gen) precheck(name string, fd *ast.FuncDecl, tableMode bool) {
 				}
 			}
 		case *ast.DeclStmt, *ast.AssignStmt:
+			if a, ok := x.(*ast.AssignStmt); ok {
+				for _, l := range a.Lhs {
+					if _, isIdx := stripParens(l).(*ast.IndexExpr); isIdx && isTainted(l) {
+						g.die(a, "write through a local alias of a package-level table")
+					}
+				}
+				if len(a.Lhs) == 1 && len(a.Rhs) == 1 && isWideExpr(a.Lhs[0]) {
+					switch a.Tok {
+					case token.ADD_ASSIGN:
+						checkWide(a, token.ADD, a.Lhs[0], a.Rhs[0])
+					case token.MUL_ASSIGN:
+						checkWide(a, token.MUL, a.Lhs[0], a.Rhs[0])
+					case token.SHL_ASSIGN:
+						checkWide(a, token.SHL, a.Lhs[0], a.Rhs[0])
+					}
+				}
+			}
 			if a, ok := x.(*ast.AssignStmt); ok && tableMode && len(a.Lhs) == 1 && len(a.Rhs) == 1 {
 				if id, ok := a.Lhs[0].(*ast.Ident); ok && id.Name == "_" {
 					hasCall := false
@@ -1390,7 +1541,14 @@ func (g *gen) precheck(name string, fd *ast.FuncDecl, tableMode bool) {
 					}
 				}
 			}
+		case *ast.IncDecStmt:
+			if isTainted(x.X) {
+				g.die(x, "write through a local alias of a package-level table")
+			}
 		case *ast.BinaryExpr:
+			if g.constInt(x) == nil && isWideExpr(x) && (x.Op == token.SHL || x.Op == token.MUL || x.Op == token.ADD) {
+				checkWide(x, x.Op, x.X, x.Y)
+			}
 			if (x.Op == token.SHL || x.Op == token.SHR) && g.constInt(x.Y) == nil {
 				// a negative shift count panics at run time
 				if bt, ok := g.typeOf(x.Y).Underlying().(*types.Basic); !ok || bt.Info()&types.IsUnsigned == 0 {
@@ -1398,6 +1556,45 @@ func (g *gen) precheck(name string, fd *ast.FuncDecl, tableMode bool) {
 				}
 			}
 		case *ast.CallExpr:
+			if tv, ok := g.info.Types[x.Fun]; ok && tv.IsType() && len(x.Args) == 1 {
+				to, ok1 := tv.Type.Underlying().(*types.Basic)
+				from, ok2 := g.typeOf(x.Args[0]).Underlying().(*types.Basic)
+				if ok1 && ok2 && to.Info()&types.IsInteger != 0 && from.Info()&types.IsFloat != 0 && g.constInt(x) == nil {
+					// float -> integer: modelled as |x| truncated; only the idiom `int(f) % c == 0` (or != 0) is insensitive to that
+					okIdiom := false
+					p1 := parent[x]
+					for {
+						if pe, ok := p1.(*ast.ParenExpr); ok {
+							p1 = parent[pe]
+							continue
+						}
+						break
+					}
+					if rem, ok := p1.(*ast.BinaryExpr); ok && rem.Op == token.REM && stripParens(rem.X) == ast.Expr(x) {
+						if d := g.constInt(rem.Y); d != nil && *d > 0 {
+							p2 := parent[rem]
+							for {
+								if pe, ok := p2.(*ast.ParenExpr); ok {
+									p2 = parent[pe]
+									continue
+								}
+								break
+							}
+							if cmp, ok := p2.(*ast.BinaryExpr); ok && (cmp.Op == token.EQL || cmp.Op == token.NEQ) {
+								if z := g.constInt(cmp.Y); z != nil && *z == 0 {
+									okIdiom = true
+								}
+							}
+						}
+					}
+					if !okIdiom {
+						g.die(x, "float-to-integer conversion outside the idiom `int(f) %% c == 0` is not modelled (sign and range)")
+					}
+				}
+			}
+			if id, ok := x.Fun.(*ast.Ident); ok && (id.Name == "append" || id.Name == "copy") && len(x.Args) > 0 && isTainted(x.Args[0]) {
+				g.die(x, "%s on a local alias of a package-level table", id.Name)
+			}
 			if tableMode {
 				// a pointer-typed variable handed on (the in-out idiom) only in a call that is a statement of its own
 				if _, stmtLevel := parent[x].(*ast.ExprStmt); !stmtLevel {
